@@ -180,7 +180,7 @@ func (e *env) roundTrip(caseID string, idx int) {
 			PUnknown:     []float64{0, 0.03, 0.1}[rng.Intn(3)],
 			PLate:        []float64{0, 0.05, 0.2}[rng.Intn(3)],
 			PFork:        []float64{0.02, 0.1, 0.3}[rng.Intn(3)],
-			Classes:      []string{"M", "MH", "MHL", "MMMMHLZ", "MHLZNTUX", "MMMMHLR"}[rng.Intn(6)],
+			Classes:      []string{"M", "MH", "MHL", "MMMMHLZ", "MHLZNTUX", "MMMMHLR", "W", "MWW"}[rng.Intn(8)], // W: work next to 2^32 / 2^64 / 2^128 / 2^192 (cumulative work crosses those boundaries)
 			FieldExtreme: true,
 		})
 	}
